@@ -1232,7 +1232,7 @@ fn main() {
     let n_cases = match args.tier.as_str() {
         "miri" => 3,
         "tsan" => 40,
-        _ => args.size(3_000, 150_000),
+        _ => args.size(3_000, 500_000),
     };
     let mut report = run_workers(&args, "C19", |w, n, rng, report| {
         for k in 0..Args::share(n_cases, w, n) {
